@@ -3,6 +3,7 @@ import TonicModel.Model.Status
 import TonicModel.Spec.Status
 import TonicModel.Basic.HMap
 import TonicModel.Model.Framing
+import TonicModel.Model.StatusClient
 namespace DriverC04
 open Proto Status
 
@@ -161,7 +162,223 @@ def obsMsgsEnd : List String → Nat × List String
   | "m" :: _ :: r => let (n, e) := obsMsgsEnd r; (n + 1, e)
   | e => (0, e)
 
+
+/-! ### `cli`, `wr`, `mk` (audit aC04): a real client reads a scripted response; the server-side
+layers write a failing call; one status value made in different ways -/
+
+/-- the status a `Streaming` yields for the stream model's error `e` (code + class) -/
+def stOfErr (http : Nat) (first : Option HMap) (e : Framing.St) : St :=
+  match e.cls with
+  | .user => match first.bind (fromHeaderMap .fixed) with
+    | some (.status st) => st
+    | _ => { code := Code.ofNum e.code, message := [], details := [], metadata := [] }
+  | _ => { code := Code.ofNum e.code, message := inferMessage http, details := [], metadata := [] }
+
+def isPendingItem : Framing.Item Bytes → Bool
+  | .pending => true
+  | _ => false
+
+/-- `trailers.take()` has happened when the stream is polled once more after a clean end: a
+non-200 `Direction::Response` is then classified by its HTTP status (finding C04-F2) -/
+def againAfterEnd (dir : Framing.Dir) : String :=
+  match Status.repollAfterTrailersTaken dir with
+  | none => "again:none"
+  | some _ => "again:err"
+
+def againOf : List (Framing.Item Bytes) → String
+  | .msg _ :: _ => "again:msg"
+  | .err _ :: _ => "again:err"
+  | _ => "again:none"
+
+/-- `message()` / `next()` until the stream ends, `trailers()`, one more `message()` -/
+def consumeM (http : Nat) (dir : Framing.Dir) (first : Option HMap) : List (Framing.Item Bytes) → List String
+  | [] => ["no-end", "again:none"]
+  | .pending :: r => consumeM http dir first r
+  | .msg m :: r => "m" :: hex m :: consumeM http dir first r
+  | .none :: r => ("end" :: renderT first) ++ [if first.isSome then againAfterEnd dir else againOf r]
+  | .err e :: r => ("err" :: renderSt (stOfErr http first e)) ++ ["t:none", againOf r]
+
+/-- `trailers()` first (it drains the messages), then `trailers()` again -/
+def consumeT (http : Nat) (dir : Framing.Dir) (first : Option HMap) (items : List (Framing.Item Bytes)) : List String :=
+  match Status.drainEnd items with
+  | some e => ("tr-err" :: renderSt (stOfErr http first e)) ++ ["again:none"]
+  | none => ("tr-end" :: renderT first) ++ [if first.isSome then (if againAfterEnd dir == "again:err" then "again:err" else "again:none") else "again:none"]
+
+/-- spec verdict for a client call: `obsSt` = the status the call / the stream failed with
+(`none` = it did not fail), `nmsgs` = messages delivered -/
+def cliVerdict (http : Nat) (hdr : HMap) (first : Option HMap) (failed : Option ObsSt) (atCall : Bool)
+    (nmsgs : Nat) (unaryMissing : Bool) : List (String × Bool) :=
+  match Spec.Status.read hdr with
+  | some r =>
+    match r.message, r.details with
+    | some m, some d =>
+      if r.code == Spec.Status.OK then [("ok-in-headers-is-not-a-failed-call", !atCall)]
+      else match failed with
+        | some o => [("header-status-fails-the-call", atCall), ("code-as-sent-or-unknown", o.code == r.code),
+                     ("message-decoded", o.message == m), ("details-decoded", o.details == d)]
+        | none => [("header-status-fails-the-call", false)]
+    | _, _ => match failed with
+        | some o => [("undecodable-field-gives-error-status", o.code != Spec.Status.OK)]
+        | none => [("undecodable-field-gives-error-status", false)]
+  | none =>
+    let reading := first.bind Spec.Status.read
+    let noMsg := ("non-200-response-yields-no-message", http == 200 || nmsgs == 0)
+    match reading with
+    | some r =>
+      match r.message, r.details with
+      | some m, some d =>
+        if r.code == Spec.Status.OK then
+          [noMsg, ("clean-end-on-ok-trailers", unaryMissing || failed.isNone)]
+        else match failed with
+          | some o => [noMsg, ("status-not-at-call", !atCall), ("code-as-sent-or-unknown", o.code == r.code),
+                       ("message-decoded", o.message == m), ("details-decoded", o.details == d)]
+          | none => [noMsg, ("trailers-status-ends-the-stream-with-it", false)]
+      | _, _ => match failed with
+        | some o => [noMsg, ("undecodable-field-gives-error-status", o.code != Spec.Status.OK)]
+        | none => [noMsg, ("undecodable-field-gives-error-status", false)]
+    | none =>
+      if http == 200 then [("clean-end-only-on-ok-or-http-200", unaryMissing || failed.isNone)]
+      else match failed with
+        | some o => [noMsg, ("http-status-table", o.code == Spec.Status.httpToCode http)]
+        | none => [noMsg, ("clean-end-only-on-ok-or-http-200", false)]
+
+/-- pick the failure out of the observed tokens of a streaming `cli` case (after `resp <map>`):
+`(messages, failure, parses)` -/
+def obsStream : List String → Nat × Option ObsSt × Bool
+  | "m" :: _ :: r => let (n, f, p) := obsStream r; (n + 1, f, p)
+  | "err" :: r => match parseObsSt r with
+    | some (o, _) => (0, some o, true)
+    | none => (0, none, false)
+  | "tr-err" :: r => match parseObsSt r with
+    | some (o, _) => (0, some o, true)
+    | none => (0, none, false)
+  | "end" :: _ => (0, none, true)
+  | "tr-end" :: _ => (0, none, true)
+  | _ => (0, none, false)
+
+def survivesVerdict (st : St) (h0 : HMap) (blocks : List HMap) (o : ObsSt) : List (String × Bool) :=
+  [("values-legal", blocks.all (fun h => h.all (fun e => Spec.Status.legalHeaderValue e.2))),
+   ("message-percent-encoded", blocks.all (fun h => (HMap.getAll Spec.Status.messageName h).all Spec.Status.percentEncodedWellFormed)),
+   ("code-survives", o.code == st.code.num),
+   ("message-survives", o.message == st.message),
+   ("details-survive", o.details == st.details),
+   ("custom-metadata-survives", HMap.render (customOnly o.metadata) == HMap.render (customOnly st.metadata)),
+   ("no-protocol-names-in-metadata", o.metadata.all (fun e => !Spec.Status.protocolNames.contains e.1 || h0.contains e))]
+
+def grpcCT : HMap := [(HMap.name "content-type", HMap.name "application/grpc")]
+
+def handleX (case obs : List String) : Option (String × String) :=
+  match case with
+  | "cli" :: meth :: api :: _hint :: hs :: rest =>
+    match nat? hs, HMap.parse rest with
+    | some http, some (hdr, ne :: r) =>
+      match (nat? ne).bind (fun n => parseBEvs n r) with
+      | none => some bad
+      | some evs =>
+        let first := firstTrailers evs
+        let streaming := meth == "s" || meth == "b"
+        match createResponse .fixed http hdr with
+        | .panic => some ("panic", verdict [("never-panics", false)])
+        | .fail st =>
+          let v := match obs with
+            | ["panic"] => [("never-panics", false)]
+            | "err" :: o => match parseObsSt o with
+              | some (o, []) => cliVerdict http hdr first (some o) true 0 false
+              | _ => [("observed-parses", false)]
+            | _ => cliVerdict http hdr first none false 0 false
+          some (join ("err" :: renderSt st), verdict v)
+        | .stream dir =>
+          let cfg : Framing.DecCfg := { enc := none, maxSize := none, dir := dir }
+          let n := 2 * evs.length + dataLen evs + 8
+          let items := (Framing.Dec.run rawCodec cfg n Framing.Dec.init (evs.map toFramingEv)).filter (fun i => !isPendingItem i)
+          if streaming then
+            let model := ("resp" :: HMap.render hdr) ++
+              (if api == "t" then consumeT http dir first items else consumeM http dir first items)
+            let v := match obs with
+              | ["panic"] => [("never-panics", false)]
+              | ["hang"] => [("never-hangs", false)]
+              | "err" :: o => match parseObsSt o with
+                | some (o, []) => cliVerdict http hdr first (some o) true 0 false
+                | _ => [("observed-parses", false)]
+              | "resp" :: o =>
+                match HMap.parseRendered o with
+                | some (_, body) =>
+                  let (nm, f, p) := obsStream body
+                  if p then
+                    cliVerdict http hdr first f false nm false ++
+                      -- polled again after it ENDED WITHOUT an error, a stream must not come up with one
+                      [("ended-stream-stays-ended", f.isSome || !(body.contains "again:err" || body.contains "again:msg"))]
+                  else [("observed-parses", false)]
+                | none => [("observed-parses", false)]
+              | _ => [("observed-parses", false)]
+            some (join model, verdict v)
+          else
+            let out := Status.unaryOf (stOfErr http first) hdr first items
+            let model := match out with
+              | .ok m md => ["ok", hex m, "md"] ++ HMap.render md
+              | .err st => "err" :: renderSt st
+            let v := match obs with
+              | ["panic"] => [("never-panics", false)]
+              | ["hang"] => [("never-hangs", false)]
+              | "err" :: o => match parseObsSt o with
+                | some (o, []) =>
+                  let missing := o.code == Spec.Status.INTERNAL && o.message == Status.missingMessage.message
+                  if missing then cliVerdict http hdr first none false 0 true
+                  else cliVerdict http hdr first (some o) false 0 false
+                | _ => [("observed-parses", false)]
+              | "ok" :: _ => cliVerdict http hdr first none false 1 false
+              | _ => [("observed-parses", false)]
+            some (join model, verdict v)
+    | _, _ => some bad
+  | "wr" :: path :: ks :: rest =>
+    match parseSt rest with
+    | some (st, []) =>
+      let k : Option Nat := nat? ks
+      let trailersOnly := path == "su" || path == "sc" || path == "re" || path == "ri" || ((path == "ss" || path == "sb") && k.isNone)
+      let nbytes := ((List.range (k.getD 0)).map (fun i => 6 + i)).foldl (· + ·) 0
+      let hdr0 : HMap := if path == "eb" then [] else grpcCT
+      let parts : Option (HMap × Option HMap) :=
+        if trailersOnly then
+          match addHeader .fixed st grpcCT with
+          | .ok h => some (h, none)
+          | .error _ => none
+        else
+          match toHeaderMap .fixed st with
+          | .ok t => some (hdr0, some t)
+          | .error _ => none
+      let model := match parts with
+        | none => ["enc-err"]
+        | some (h, t) =>
+          ("hdr" :: HMap.render h) ++ ["nb", toString (if trailersOnly then 0 else nbytes), "tr"] ++ renderT t ++
+            ("back" :: renderOutcome (fromHeaderMap .fixed (t.getD h)))
+      let v := match obs with
+        | ["panic"] => [("never-panics", false)]
+        | ["hang"] => [("never-hangs", false)]
+        | "hdr" :: o =>
+          match HMap.parseRendered o with
+          | some (h, "nb" :: nb :: "tr" :: "none" :: "back" :: "st" :: b) =>
+            match parseObsSt b with
+            | some (o, []) => ("no-message-lost-before-the-status", nb == toString (if trailersOnly then 0 else nbytes)) :: survivesVerdict st grpcCT [h] o
+            | _ => [("observed-parses", false)]
+          | some (h, "nb" :: nb :: "tr" :: "some" :: t) =>
+            match HMap.parseRendered t with
+            | some (t, "back" :: "st" :: b) =>
+              match parseObsSt b with
+              | some (o, []) => ("no-message-lost-before-the-status", nb == toString nbytes) :: survivesVerdict st [] [h, t] o
+              | _ => [("observed-parses", false)]
+            | some (_, ["back", "panic"]) => [("never-panics", false)]
+            | _ => [("reads-back-a-status", false)]
+          | some (_, "nb" :: _ :: "tr" :: "none" :: ["back", "panic"]) => [("never-panics", false)]
+          | _ => [("reads-back-a-status", false)]
+        | _ => [("status-is-encodable", false)]
+      some (join model, verdict v)
+    | _ => some bad
+  | _ => none
+
 def handle (case obs : List String) : String × String :=
+  match handleX case obs with
+  | some r => r
+  | none =>
   match case with
   | ["code", hv] =>
     match unhex hv with
@@ -294,8 +511,10 @@ def handle (case obs : List String) : String × String :=
           | none => [("observed-parses", false)]
         | _ => [("observed-parses", false)]
       (toString r, verdict v)
-  | kind :: rest =>
-    if kind != "rt" && kind != "rth" then bad else
+  | kind :: rest0 =>
+    if kind != "rt" && kind != "rth" && kind != "mk" then bad else
+    -- `mk <how> <status>`: the way the status value was made is not part of the prediction
+    let rest := if kind == "mk" then rest0.drop 1 else rest0
     match parseSt rest with
     | some (st, []) =>
       let h0 : HMap := if kind == "rth" then [(HMap.name "content-type", HMap.name "application/grpc")] else []
